@@ -67,8 +67,10 @@ proof fn lemma_lessk_order(cmp: Comparator, a: OK, b: OK, c: OK)
 impl Comparator {
 //@ extract sst/src/merging_cursor.rs | impl Comparator :: fn is_less
 //@ ret r
-//@ rewrite-re X9 `=> lhs < rhs,` => `=> keyref_lt(&lhs, &rhs),`
-//@ rewrite-re X9 `=> lhs > rhs,` => `=> keyref_lt(&rhs, &lhs),`
+//@ rewrite-re? X9 `=> lhs < rhs,` => `=> keyref_lt(&lhs, &rhs),`
+//@ rewrite-re? X9 `=> lhs > rhs,` => `=> keyref_lt(&rhs, &lhs),`
+//@ rewrite-re? X9 `=> lhs <= rhs,` => `=> !keyref_lt(&rhs, &lhs),`
+//@ rewrite-re? X9 `=> lhs >= rhs,` => `=> !keyref_lt(&lhs, &rhs),`
 //@ pre <<
         lhs.wf_base(), rhs.wf_base(),
 //@ >>
@@ -1379,7 +1381,7 @@ impl<C: Cursor> Cursor for MergingCursor<C> {
         let ghost f1 = self.cursors@;
         proof { lemma_same_tables(f1, old(self).cursors@); }
 //@ >>
-//@ after `self.heapify();` <<
+//@ after? `self.heapify();` <<
         proof {
             let f2 = self.cursors@;
             lemma_family_invariants(f2, f1);
@@ -1424,7 +1426,7 @@ impl<C: Cursor> Cursor for MergingCursor<C> {
         let ghost f1 = self.cursors@;
         proof { lemma_same_tables(f1, old(self).cursors@); }
 //@ >>
-//@ after `self.heapify();` <<
+//@ after? `self.heapify();` <<
         let ghost f2 = self.cursors@;
         proof {
             assert(heap_from(f2, Comparator::Forward, 0));
@@ -1489,7 +1491,7 @@ impl<C: Cursor> Cursor for MergingCursor<C> {
         let ghost f1 = self.cursors@;
         proof { lemma_same_tables(f1, old(self).cursors@); }
 //@ >>
-//@ after `self.heapify();` <<
+//@ after? `self.heapify();` <<
         let ghost f2 = self.cursors@;
         proof {
             assert(heap_from(f2, Comparator::Reverse, 0));
@@ -1561,7 +1563,7 @@ impl<C: Cursor> Cursor for MergingCursor<C> {
                 old(self).lemma_switch_fr_pos(f1);
             }
 //@ >>
-//@ after `self.heapify();` <<
+//@ after? `self.heapify();` <<
             proof {
                 let f2 = self.cursors@;
                 lemma_family_invariants(f2, f1);
@@ -1583,7 +1585,7 @@ impl<C: Cursor> Cursor for MergingCursor<C> {
                 old(self).lemma_step_r_heap(f1);
             }
 //@ >>
-//@ after `self.percolate_down(0);` <<
+//@ after? `self.percolate_down(0);` <<
             proof {
                 let f2 = self.cursors@;
                 lemma_family_invariants(f2, f1);
@@ -1632,7 +1634,7 @@ impl<C: Cursor> Cursor for MergingCursor<C> {
                 old(self).lemma_switch_rf_pos(f1);
             }
 //@ >>
-//@ after `self.heapify();` <<
+//@ after? `self.heapify();` <<
             proof {
                 let f2 = self.cursors@;
                 lemma_family_invariants(f2, f1);
@@ -1654,7 +1656,7 @@ impl<C: Cursor> Cursor for MergingCursor<C> {
                 old(self).lemma_step_f_heap(f1);
             }
 //@ >>
-//@ after `self.percolate_down(0);` <<
+//@ after? `self.percolate_down(0);` <<
             proof {
                 let f2 = self.cursors@;
                 lemma_family_invariants(f2, f1);
